@@ -16,6 +16,7 @@ import GojaModel.C13.Cache2Lemmas
 import GojaModel.C13.GoSlice
 import GojaModel.C13.Refine
 import GojaModel.C13.Nested
+import GojaModel.C13.NestedHist
 import GojaModel.C13.ExportToLemmas
 
 namespace GojaModel.C13
@@ -328,6 +329,23 @@ theorem nested_wrappers_pointed_all_histories (fld : Nat → Nat → Nat) (a0 : 
     | cons m τ' => simp [WT.sub, WT.kids, lookupKid] at hs
   exact WT.runW_pointed fld ops _ h0 σ k h
 
+/-- NESTED WRAPPERS INSIDE SLICE / ARRAY / STRUCT HISTORIES.  Run ANY history of the WrapCache model (script operations,
+    Go-side operations, re-allocations, out-of-range operations — no admissibility needed) interleaved with script
+    handing out nested wrappers below any element handle: at every moment, for every element handle `w`, the tree of
+    nested wrappers hangs on the address `w` currently refers to (its slot, or its private copy once detached) and every
+    nested wrapper refers to the corresponding field of THAT value — nested wrappers follow their parent through
+    detach, sort swaps and re-allocations. -/
+theorem nested_wrappers_in_histories (fld : Nat → Nat → Nat) (fixed : Bool) (n c : Nat) (f : Nat → Val) (ops : List NOp)
+    (w : Nat) (σ : List Nat) (k : WT) :
+    let t := (NSt.init (St.init fixed n c f)).run fld ops
+    w < t.s.nw → (t.trees w).sub σ = some k → k.loc = pathAddr fld (addrOf w (t.s.ws w)) σ := by
+  intro t hw hs
+  have h0 : NInv fld (NSt.init (St.init fixed n c f)) := by
+    intro w' hw'; simp [NSt.init, St.init] at hw'
+  have h := NInv_run fld ops _ h0 w hw
+  rw [← h.2]
+  exact h.1 σ k hs
+
 /-- Regression record of the mechanism before a40b0ef (setReflectValue moved only the wrapper itself): the nested
     wrapper keeps pointing into the old location. -/
 theorem nested_wrapper_shallow_prefix_witness :
@@ -397,6 +415,19 @@ theorem gateway_arg_conversion (k : IntKind) :
   cases v with
   | int i => rfl
   | flt f => cases f <;> rfl
+
+/-- …into `bool` and `float64` parameters: total, undefined / null give the zero value, ToBoolean / ToFloat otherwise;
+    a missing argument is the zero value of its parameter's kind, and undefined converts to exactly that. -/
+theorem gateway_arg_conversion_bool_float (a : JArg) :
+    convArgBool .undef = false ∧ convArgBool .null = false ∧ (∀ b, convArgBool (.bool b) = b) ∧
+    (∀ i, convArgBool (.num (.int i)) = decide (i ≠ 0)) ∧ convArgBool (.num (.flt .nan)) = false ∧
+    convArgBool (.num (.flt .negZero)) = false ∧
+    convArgF64 .undef = .intval 0 ∧ convArgF64 .null = .intval 0 ∧
+    (∀ f, convArgF64 (.num (floatToValue f)) = f) ∧ (∀ i, convArgF64 (.num (.int i)) = .intval i) ∧
+    (∀ k, convArg k .undef = zeroArg k) := by
+  refine ⟨rfl, rfl, fun b => rfl, fun i => by simp [convArgBool], rfl, rfl, rfl, rfl, ?_, fun i => rfl, ?_⟩
+  · intro f; exact exportTo_own_kind_f64 f
+  · intro k; cases k <;> rfl
 
 /-- …and the whole call: what the Go func receives at position i is the conversion, for the kind of the parameter that
     position belongs to, of the script argument the documentation assigns to it (or 0 where it is missing). -/
@@ -763,6 +794,25 @@ theorem typed_identity_survives_untyped_visits (c : C2) (key ty v : Nat) (ops : 
     | none => simp [getTyped_setCache, tblGet_cons]
     | some e => cases e <;> simp [getTyped_setCache, tblGet_cons]
   exact binding_stable_run key ty v ops (c.putTyped key ty v) h0 (by rw [het]; exact hl)
+
+/-- THE TWO-LEVEL TABLE IS A MAP KEYED BY (OBJECT, TYPE CODE).  Whatever sequence of cache writes one export performs
+    (code 0 = ctx.put of the untyped export, code t+1 = ctx.putTyped for destination type `tyOf t`; typed destinations
+    equal to the object's own export type never occur as typed codes, they take the AssignableTo path), every lookup
+    ctx.get / ctx.getTyped answers exactly what an association list of those writes would: this is the abstract cache
+    `ExportTo.lean` and `Export.lean` compute with. -/
+theorem two_level_cache_is_keyed_map (tyOf : Nat → Nat) (hinj : ∀ s t, tyOf s = tyOf t → s = t)
+    (et : Nat → Nat) (hty : ∀ id t, tyOf t ≠ et id) (ws : List ((Nat × Nat) × Nat)) (k : Nat × Nat) :
+    (ws.foldl (fun c w => c.writeK tyOf w.1 w.2) ({ et := et, cache := fun _ => none } : C2)).lookupK tyOf k =
+      assocLookup k ws.reverse := by
+  have h := c2_implements_keyed_map tyOf hinj ws ({ et := et, cache := fun _ => none } : C2) hty []
+    (by intro k'; simp [C2.lookupK, C2.get, C2.getTyped, assocLookup]) k
+  rw [h]
+  congr 1
+  have : ∀ (l A : List ((Nat × Nat) × Nat)), l.foldl (fun A w => w :: A) A = l.reverse ++ A := by
+    intro l; induction l with
+    | nil => intro A; rfl
+    | cons x xs ih => intro A; simp [List.foldl, ih]
+  simpa using this ws []
 
 /-- Regression record of the seeded mutant C13-m2 (putTyped drops an earlier untyped entry when upgrading it to a
     per-type table): untyped → typed → untyped loses the identity, the coded putTyped keeps it. -/
